@@ -58,7 +58,21 @@ def write_facts(fi, writer: str = WRITER, argpos: int = 0, kwname: Optional[str]
     """One record per (write call, path): how the written table was obtained on that path.  `writer` is write_pdb or a helper of
     the module that hands its parameter number `argpos` (keyword `kwname`) on to write_pdb."""
     out: List[Dict[str, Any]] = []
-    calls = [c for c in astq.walk_no_nested(fi.node) if isinstance(c, ast.Call) and _callee(c) == writer and _table_arg(c, argpos, kwname) is not None]
+    # local names that may stand for the writer (`writer = write_pdb if as_pdb else write_cif`, `save = write_pdb`): a call through
+    # such a name is a call of the writer on the paths where the name holds it
+    aliases: Set[str] = set()
+    grew = True
+    while grew:
+        grew = False
+        for st in astq.walk_no_nested(fi.node):
+            if isinstance(st, ast.Assign) and len(st.targets) == 1 and isinstance(st.targets[0], ast.Name) and st.targets[0].id not in aliases:
+                if not isinstance(st.value, (ast.Name, ast.IfExp)):
+                    continue
+                leaves = [x for x in ast.walk(st.value) if isinstance(x, ast.Name) and isinstance(x.ctx, ast.Load)]
+                if any(x.id == writer or x.id in aliases for x in leaves if x is st.value or isinstance(st.value, ast.IfExp) and (x is st.value.body or x is st.value.orelse)):
+                    aliases.add(st.targets[0].id)
+                    grew = True
+    calls = [c for c in astq.walk_no_nested(fi.node) if isinstance(c, ast.Call) and (_callee(c) == writer or (isinstance(c.func, ast.Name) and c.func.id in aliases)) and _table_arg(c, argpos, kwname) is not None]
     for call in calls:
         loop = _innermost_loop(fi.node, call)
         block = loop.body if loop is not None else fi.node.body
@@ -100,6 +114,24 @@ def write_facts(fi, writer: str = WRITER, argpos: int = 0, kwname: Optional[str]
                         truth[nm] = truth[norm(val)]
                     elif isinstance(val, ast.UnaryOp) and isinstance(val.op, ast.Not) and norm(val.operand) in truth:
                         truth[nm] = not truth[norm(val.operand)]
+            if isinstance(call.func, ast.Name) and call.func.id in aliases:
+                f: ast.AST = call.func
+                for _ in range(6):
+                    if isinstance(f, ast.IfExp):
+                        t = norm(f.test)
+                        if t in truth:
+                            f = f.body if truth[t] else f.orelse
+                            continue
+                        break
+                    if isinstance(f, ast.Name) and f.id != writer:
+                        d = last_def(f.id, k_call)
+                        if d is None:
+                            break
+                        f = d[1]
+                        continue
+                    break
+                if isinstance(f, ast.Name) and f.id != writer and f.id not in aliases:
+                    continue  # on this path the name holds another function (write_cif): not a PDB write
             rec: Dict[str, Any] = {"call": call, "loop": loop, "events": events, "how": None, "table": None, "tested": None, "tagged": None, "carried": None}
             # resolve the written table: through fit_to_pdb(...), `.copy()` and plain names, along this path
             e: ast.AST = _table_arg(call, argpos, kwname)
@@ -142,6 +174,22 @@ def write_facts(fi, writer: str = WRITER, argpos: int = 0, kwname: Optional[str]
                 rec["expr"] = norm(e)[:60]
             out.append(rec)
     return out
+
+
+def _fitted_whole(fi, r) -> Optional[str]:
+    """The written table is a piece (loop target) of a table that went through fit_to_pdb before the loop: text of that fit."""
+    loop = r.get("loop")
+    if not r.get("piece") or not isinstance(loop, ast.For):
+        return None
+    roots = {x.id for x in ast.walk(loop.iter) if isinstance(x, ast.Name)}
+    for _ in range(3):
+        for st in astq.walk_no_nested(fi.node):
+            if isinstance(st, ast.Assign) and len(st.targets) == 1 and isinstance(st.targets[0], ast.Name) and st.targets[0].id in roots:
+                roots |= {x.id for x in ast.walk(st.value) if isinstance(x, ast.Name)}
+    for st in astq.walk_no_nested(fi.node):
+        if isinstance(st, ast.Assign) and len(st.targets) == 1 and isinstance(st.targets[0], ast.Name) and st.targets[0].id in roots and isinstance(st.value, ast.Call) and _callee(st.value) == FITTER and getattr(st, "lineno", 0) < getattr(loop, "lineno", 0):
+            return norm(st)[:60]
+    return None
 
 
 def check_fit_before_write(chk, entries, rule: str = "fit-before-write") -> bool:
@@ -192,7 +240,13 @@ def check_fit_before_write(chk, entries, rule: str = "fit-before-write") -> bool
                 bad.setdefault("expr", (g, r, f"`{norm(r['call'])[:60]}` writes `{r.get('expr')}`, which is neither fit_to_pdb(<table>) nor a table tested with can_write_pdb on this path"))
                 continue
             t = r["table"]
-            if r["carried"]:
+            whole = _fitted_whole(g, r)
+            if whole:
+                msg = (
+                    f"`{norm(r['call'])[:60]}` writes the piece `{t}` of a table that was fitted as a whole (`{whole}`) before it was split: the limits - 99999 atoms and TER lines, 62 chains, 9999 residues per chain - "
+                    "are then applied to all pieces together, so a model that fits on its own is renumbered or refused because of the others (and serials no longer start at 1 in each file); every table has to be fitted by itself"
+                )
+            elif r["carried"]:
                 msg = (
                     f"on one path `{norm(r['call'])[:60]}` writes the table `{t}` as it is, without fit_to_pdb({t}) and without can_write_pdb({t}) having been tested for it on that path: the decision was taken for another table "
                     f"({'an earlier round of the loop - a flag that survives the rounds' if r['loop'] is not None else 'elsewhere'}), but serials, chain ids and residue numbers differ from table to table "
